@@ -1,4 +1,8 @@
+mod c06;
 mod c15;
+mod e1;
+mod lib_spec;
+mod refgraph;
 
 fn main() {
     let args: Vec<String> = std::env::args().skip(1).collect();
@@ -8,6 +12,7 @@ fn main() {
     mc_core::quiet_panics();
     let rest = &args[1..];
     match prop.as_str() {
+        "C06" => c06::run(rest),
         "C15" => c15::run(rest),
         _ => mc_core::machinery_error(&format!("mc-graph does not serve {prop}")),
     }
